@@ -719,6 +719,22 @@ class Interp:
         fr.locals[st.name] = Func(fr.module, (fr.func.qualname + '.' if fr.func else '') + st.name, st, closure=fr)
 
     def s_ClassDef(self, st, fr):
+        # the one shape the repository uses inside functions: a plain enum.Enum of constants (column indices)
+        bases = [ast.unparse(b) for b in st.bases]
+        if bases == ['enum.Enum'] and not st.decorator_list and not st.keywords:
+            members = {}
+            for b in st.body:
+                if isinstance(b, ast.Assign) and len(b.targets) == 1 and isinstance(b.targets[0], ast.Name) and isinstance(b.value, ast.Constant):
+                    nm = b.targets[0].id
+                    if nm in ('name', 'value'):
+                        raise Unsupported('enum member called %s' % nm)
+                    members[nm] = Opaque('enum', enum_member=True, value=b.value.value, member_name=nm)
+                elif isinstance(b, ast.Expr) and isinstance(b.value, ast.Constant):
+                    continue
+                else:
+                    raise Unsupported('nested class definition (enum with a non-constant member)')
+            fr.locals[st.name] = Opaque('enumclass', **members)
+            return
         raise Unsupported('nested class definition')
 
     def s_While(self, st, fr):
